@@ -88,7 +88,7 @@ class Decider:
         self._ti = 0
 
     # ---- process level: batches, worker assignment, execution order
-    def proc_call(self, call_idx, n_tasks, k):
+    def proc_call(self, call_idx, n_tasks, k, batch_size="auto"):
         if self.replay:
             d = None
             for e in self.rec["proc"]:
@@ -102,7 +102,9 @@ class Decider:
         rng = self.rng
         # consecutive batches of random sizes (joblib's auto batching can produce any such partition)
         mode = rng.choice(["singletons", "one", "random", "random"])
-        if mode == "singletons":
+        if isinstance(batch_size, int) and batch_size >= 1:
+            sizes = [batch_size] * (n_tasks // batch_size) + ([n_tasks % batch_size] if n_tasks % batch_size else [])
+        elif mode == "singletons":
             sizes = [1] * n_tasks
         elif mode == "one":
             sizes = [n_tasks]
@@ -194,7 +196,7 @@ class Sim:
         table[key] = table.get(key, 0) + n
 
     # ------------------------------------------------------------------ entry: SimParallel()(tasks)
-    def parallel(self, n_jobs, tasks):
+    def parallel(self, n_jobs, tasks, return_as="list", force_threads=False, batch_size="auto"):
         tasks = list(tasks)
         if n_jobs is None:
             n_jobs = 1
@@ -202,14 +204,20 @@ class Sim:
             n_jobs = max(1, (os.cpu_count() or 1) + 1 + n_jobs)
         if self.pollution is not None and self.level < 2:
             self.pollution(self, "before_parallel")
+        completion = list(range(len(tasks)))
         if n_jobs == 1 or self.level >= 2 or len(tasks) == 0:
             out = [f(*a, **kw) for (f, a, kw) in tasks]
-        elif self.level == 0:
-            out = self._process_level(n_jobs, tasks)
+        elif self.level == 0 and not force_threads:
+            out, completion = self._process_level(n_jobs, tasks, batch_size)
         else:
-            out = self._thread_level(n_jobs, tasks)
+            out, completion = self._thread_level(n_jobs, tasks)
         if self.pollution is not None and self.level < 2:
             self.pollution(self, "after_parallel")
+        if return_as == "generator_unordered":
+            # joblib yields results as they complete: the schedule decides the order
+            return iter([out[i] for i in completion])
+        if return_as == "generator":
+            return iter(out)
         return out
 
     # ------------------------------------------------------------------ processes
@@ -233,10 +241,10 @@ class Sim:
                     pass
         return snap
 
-    def _process_level(self, k, tasks):
+    def _process_level(self, k, tasks, batch_size="auto"):
         call = self.call_idx
         self.call_idx += 1
-        dec = self.d.proc_call(call, len(tasks), k)
+        dec = self.d.proc_call(call, len(tasks), k, batch_size)
         batches, workers, order = dec["batches"], dec["workers"], dec["order"]
         if len(batches) > 1:
             self.bump(self.faults, "batch_split")
@@ -283,6 +291,7 @@ class Sim:
             wsets.append({p for p, v in after.items() if before.get(p) != v})
             if first_exc is not None:
                 break
+        completion = [i for b in order for i in batches[b]]
         for i in range(len(wsets)):
             for j in range(i + 1, len(wsets)):
                 both = wsets[i] & wsets[j]
@@ -290,7 +299,7 @@ class Sim:
                     self.write_sets.append({"call": call, "batches": [order[i], order[j]], "paths": sorted(both)})
         if first_exc is not None:
             raise first_exc
-        return results
+        return results, completion
 
     # ------------------------------------------------------------------ threads
     def _thread_level(self, k, tasks):
@@ -300,9 +309,10 @@ class Sim:
         dec = self.d.thread_call(call, n)
         self.events.append(["threads", call, len(tasks), k])
         if n <= 1:
-            return [f(*a, **kw) for (f, a, kw) in tasks]
+            return [f(*a, **kw) for (f, a, kw) in tasks], list(range(len(tasks)))
         queue = list(enumerate(tasks))
         results = [None] * len(tasks)
+        completion = []
         batons = [_Baton(i) for i in range(n)]
         parent_sem = threading.Semaphore(0)
         phase = {"dec": dec, "batons": batons, "current": None, "yields": 0, "by_ident": {}, "parent_sem": parent_sem, "in_flight": {}, "abort": None}
@@ -319,6 +329,7 @@ class Sim:
                         sim.bump(sim.probes, "two_tasks_in_flight_in_threads")
                     sim.clock.tick_task()
                     results[i] = f(*a, **kw)
+                    completion.append(i)
                     phase["in_flight"].pop(b.idx, None)
             except SimAbort as e:
                 phase["abort"] = e
@@ -339,6 +350,7 @@ class Sim:
         while any(b.ident is None for b in batons):
             _t.sleep(0)
         phase["by_ident"] = {b.ident: b for b in batons}
+        level_before = self.level
         self.level = 2
         self.thread_phase = phase
         self._monitor_on()
@@ -348,7 +360,8 @@ class Sim:
         parent_sem.acquire()  # all threads done
         self._monitor_off()
         self.thread_phase = None
-        self.level = 1
+        self.level = level_before
+        completion = completion + [i for i in range(len(tasks)) if i not in completion]
         for t in threads:
             t.join()
         self.phase_yields[call] = phase["yields"]
@@ -360,7 +373,7 @@ class Sim:
                 raise b.exc
         if phase["abort"] is not None:
             raise phase["abort"]
-        return results
+        return results, completion
 
     def _thread_finished(self, phase, b):
         live = [x for x in phase["batons"] if not x.done]
@@ -473,11 +486,17 @@ class SimParallelFactory:
     def __init__(self, sim):
         self.sim = sim
 
-    def __call__(self, n_jobs=None, **kwargs):
+    def __call__(self, n_jobs=None, backend=None, prefer=None, require=None, return_as="list", batch_size="auto", **kwargs):
         sim = self.sim
+        # options that change joblib's observable behaviour are honoured; cosmetic ones (verbose, ...) are ignored
+        force_threads = backend == "threading" or prefer == "threads" or require == "sharedmem"
+        if backend not in (None, "loky", "threading", "multiprocessing", "sequential"):
+            raise NotImplementedError(f"SimParallel: backend {backend!r} is not modelled")
+        if backend == "sequential":
+            n_jobs = 1
 
         def run(iterable):
-            return sim.parallel(n_jobs, iterable)
+            return sim.parallel(n_jobs, iterable, return_as=return_as, force_threads=force_threads, batch_size=batch_size)
 
         return run
 
